@@ -76,9 +76,11 @@ def strat(tier):
         'via_node': st.booleans(),
         # how the supplied values reach the run: generate(with_values=...) or the batch override of BatchHandler.submit
         # (the path SMC / BO use for proposed parameters)
-        'supply_via': st.sampled_from(['with_values', 'with_values', 'submit-override']),
+        'supply_via': st.sampled_from(['with_values', 'submit-override']),
         # number of batches loaded and submitted before the first one is executed (the native client evaluates lazily)
         'inflight': st.sampled_from([1, 1, 1, 2, 3]),
+        # submit-override only: one ordinary batch (nothing supplied) goes through the SAME handler first
+        'earlier_batch': st.sampled_from([False, True]),
     })
 
 
@@ -293,19 +295,40 @@ def run_case(case):
     for (kind, nm), rn in zip(req, req_names):
         exp[rn] = ref.val(nm) if kind == 'val' else ref.obs(nm)
     # the override path addresses nodes of the compiled (reduced) net: only nodes the request depends on can be overridden
-    needed_nodes = set(nm for kind, nm in req)
+    needed_nodes = set(nm for kind, nm in req if kind == 'val')
     for kind, nm in req:
-        needed_nodes |= ref.ancestors(nm)
-    override = (case.get('supply_via') == 'submit-override' and supplied and not via_node
-                and all(kind == 'val' for kind, nm in req)
-                and all(ref.n[nm]['kind'] != 'const' and nm in needed_nodes for nm in supplied))
+        if kind == 'val':
+            needed_nodes |= ref.ancestors(nm)
+    eff = {nm: v for nm, v in supplied.items() if ref.n[nm]['kind'] != 'const' and nm in needed_nodes}
+    override = bool(case.get('supply_via') == 'submit-override' and eff and not via_node)
+    if override and eff != supplied:
+        # only the supplied nodes the request depends on can be addressed; the others never mattered for this request
+        supplied = eff
+        ref = Ref(nodes, bs, ref_seed, supplied, m.name)
+        exp = {rn: (ref.val(nm) if kind == 'val' else ref.obs(nm)) for (kind, nm), rn in zip(req, req_names)}
     with must_not_raise(P, 'generate(%d, %r, with_values=%r%s)' % (bs, req_names, sorted(supplied), ' via submit override' if override else '')):
         if via_node:
             got = {req_names[0]: m[req_names[0]].generate(bs, with_values=supplied or None)}
         elif override:
             import elfi.client
             from elfi.model.elfi_model import ComputationContext
-            h = elfi.client.BatchHandler(m, ComputationContext(batch_size=bs, seed=seed), output_names=list(req_names))
+            out_names = list(req_names)
+            if case.get('earlier_batch'):
+                # as every caller inside elfi does (SMC, BOLFI: the given parameters are outputs of the handler), the nodes that
+                # will be given later are among the requested outputs.  (Giving a NON-output node after an un-supplied batch on the
+                # same handler re-uses the execution order cached for the first batch and runs the given node's ancestors; that
+                # is outside "nodes given by with_values" and is listed in DESIGN.md section 9 under "observed, not acted on".)
+                out_names += [nm for nm in sorted(supplied) if nm not in out_names]
+            h = elfi.client.BatchHandler(m, ComputationContext(batch_size=bs, seed=seed), output_names=out_names)
+            if case.get('earlier_batch'):
+                # a node computed in an earlier batch and GIVEN in a later one (what SMC / BOLFI do with parameters): the later
+                # batch is judged; its reference is the same graph at batch index 1 with the values supplied
+                h.submit()
+                h.wait_next()
+                termops.reset()
+                ref = Ref(nodes, bs, ref_seed, supplied, m.name, batch_index=1)
+                exp = {rn: (ref.val(nm) if kind == 'val' else ref.obs(nm)) for (kind, nm), rn in zip(req, req_names)}
+                labels.append('supplied-after-an-unsupplied-batch')
             h.submit(dict(supplied))
             got, bi = h.wait_next()
             got = {k: got[k] for k in req_names}
